@@ -2,6 +2,8 @@
 C09 — date-time and time values mean the instant the OFX notation denotes.
 
 Model: `OfxModel/Ofx/DateTime.lean` (+ `Py/Cal.lean`); specification: `OfxModel/Spec/Instant.lean`.
+The model follows /repo HEAD including the three `fix:` commits for C09 (sign of `-0.MM` kept; offset minutes are
+`\.[0-5][0-9]`; patterns end in `\Z`), so the former guards are gone.
 All theorems are about `dtConvertWith tzs` / `tmConvertWith tzs` for *every* zone table `tzs`
 (`dtConvert`/`tmConvert` are the instances at the generated `TZS`) and about `dtUnconvert`/`tmUnconvert`.
 -/
@@ -10,36 +12,22 @@ import OfxProofs.Lemmas.DateTime
 namespace Ofx.DateTime
 open Ofx Ofx.Cal Ofx.Spec.Instant
 
-/-! ## guards -/
+/-! ## the one remaining side condition of the read theorems -/
 
-/-- what `C09_read_partial` asks of an offset text beyond well-formedness:
-    * at most 4300 hour digits (CPython's `int()` limit),
-    * not the spelling `-0.MM` with MM ≠ 0 (known defect: read as `+0.MM`),
-    * if there are no minutes, the zone name does not begin with two digits (known defect: `[5:30]`, i.e.
-      offset +5 named "30", is read as +5:30 because the minutes separator is an unescaped `.`). -/
-def readGuard (o : OffText) : Bool :=
-  decide (o.hdigits.length ≤ intMaxStrDigits) && !o.negZeroHour
-  && (match o.minutes, o.name with | none, some n => !nameLooksLikeMinutes n | _, _ => true)
+/-- CPython's `int()` refuses more than 4300 digits (`sys.get_int_max_str_digits()`); the hours of an offset are
+    written with at most that many digits.  (Not an ofxtools matter; `C09_read_full_false` shows it is needed.) -/
+def lenOk (p : Parts) : Bool :=
+  match p.off with | some o => decide (o.hdigits.length ≤ intMaxStrDigits) | none => true
 
-def partsReadGuard (p : Parts) : Bool := match p.off with | some o => readGuard o | none => true
-
-theorem readGuard_ok {o : OffText} (hwf : o.wf = true) (hg : readGuard o = true) : OffReadOk o := by
-  simp only [readGuard, Bool.and_eq_true, decide_eq_true_eq, Bool.not_eq_true'] at hg
-  obtain ⟨⟨h1, h2⟩, h3⟩ := hg
-  refine ⟨hwf, h1, h2, ?_⟩
-  intro hm n hn
-  rw [hm, hn] at h3
-  simpa using h3
-
-theorem parts_off_ok {p : Parts} {t : Bool} (hwf : p.wf t = true) (hg : partsReadGuard p = true) :
+theorem parts_off_ok {p : Parts} {t : Bool} (hwf : p.wf t = true) (hg : lenOk p = true) :
     ∀ o, p.off = some o → OffReadOk o := by
   intro o ho
   have h1 : o.wf = true := by
     simp only [Parts.wf, Bool.and_eq_true] at hwf
     have := hwf.2; rw [ho] at this; exact this
-  have h2 : readGuard o = true := by
-    simp only [partsReadGuard, ho] at hg; exact hg
-  exact readGuard_ok h1 h2
+  have h2 : o.hdigits.length ≤ intMaxStrDigits := by
+    simp only [lenOk, ho, decide_eq_true_eq] at hg; exact hg
+  exact ⟨h1, h2⟩
 
 /-- the value is the UTC value denoting instant `us` (microseconds): valid fields, tz = UTC, that instant -/
 def IsUtcOf (v : Val) (us : Int) : Prop :=
@@ -71,12 +59,12 @@ theorem isUtcOf_fields (f : Fields) (I : Int)
 
 /-! ## reading -/
 
-/-- **C09_read (partial: the two known defects are excluded by `readGuard`).**
+/-- **C09_read.**
     Every text of the four date-time notations — `YYYYMMDD`, `YYYYMMDDHHMMSS`, with `.XXX`, with `[offset]` after
     either — with valid fields, offset in [-12:00, +14:00] written as sign? digits+ (`.MM`)? (`:name`)?, any name
     without line feed, denoting an instant within years 1..9999, converts to the UTC value denoting `instantOf`. -/
-theorem C09_read_partial (tzs : List (Str × Int)) (required : Bool) (p : Parts)
-    (hwf : p.wf false = true) (hg : partsReadGuard p = true)
+theorem C09_read (tzs : List (Str × Int)) (required : Bool) (p : Parts)
+    (hwf : p.wf false = true) (hg : lenOk p = true)
     (hrange : minInstant ≤ p.instant ∧ p.instant < endInstant) :
     ∃ v, dtConvertWith tzs required (.str p.render) = .ok v ∧ IsUtcOf v (1000 * p.instant) := by
   have hoff := parts_off_ok hwf hg
@@ -111,9 +99,9 @@ theorem C09_read_partial (tzs : List (Str × Int)) (required : Bool) (p : Parts)
         cases ms <;> cases off <;> simp [Parts.render, dateText, todText, msText, offText]
       simpa [dtConvertWith, hr] using hf
 
-/-- **C09_time_read (partial).** The same for the time notation `HHMMSS[.XXX][[offset]]`, instants modulo 24 h. -/
-theorem C09_time_read_partial (tzs : List (Str × Int)) (required : Bool) (p : Parts)
-    (hwf : p.wf true = true) (hg : partsReadGuard p = true) :
+/-- **C09_time_read.** The same for the time notation `HHMMSS[.XXX][[offset]]`, instants modulo 24 h. -/
+theorem C09_time_read (tzs : List (Str × Int)) (required : Bool) (p : Parts)
+    (hwf : p.wf true = true) (hg : lenOk p = true) :
     ∃ v, tmConvertWith tzs required (.str p.render) = .ok v ∧ IsUtcTimeOf v (1000 * p.instant) := by
   have hoff := parts_off_ok hwf hg
   obtain ⟨date, tod, ms, off⟩ := p
@@ -140,16 +128,16 @@ theorem C09_time_read_partial (tzs : List (Str × Int)) (required : Bool) (p : P
       · simpa [tmConvertWith, hr] using hf
       · rw [hI]; exact v3
 
-/-- the guards are satisfiable by non-trivial values: `20240229235959.999[-3.30:NST]`, `235959.999[+05.45:a:b]` -/
+/-- the hypotheses are satisfiable by non-trivial values: `20240229235959.999[-3.30:NST]`, `235959.999[+05.45:a:b]` -/
 example : (⟨some (2024, 2, 29), some (23, 59, 59), some 999, some ⟨some true, [3], some 30, some "NST".toList⟩⟩ : Parts).wf false = true
-    ∧ partsReadGuard ⟨some (2024, 2, 29), some (23, 59, 59), some 999, some ⟨some true, [3], some 30, some "NST".toList⟩⟩ = true
+    ∧ lenOk ⟨some (2024, 2, 29), some (23, 59, 59), some 999, some ⟨some true, [3], some 30, some "NST".toList⟩⟩ = true
     ∧ (⟨some (2024, 2, 29), some (23, 59, 59), some 999, some ⟨some true, [3], some 30, some "NST".toList⟩⟩ : Parts).render
         = "20240229235959.999[-3.30:NST]".toList := by decide +kernel
 example : (⟨none, some (23, 59, 59), some 999, some ⟨some false, [0, 5], some 45, some "a:b".toList⟩⟩ : Parts).wf true = true
-    ∧ partsReadGuard ⟨none, some (23, 59, 59), some 999, some ⟨some false, [0, 5], some 45, some "a:b".toList⟩⟩ = true := by
+    ∧ lenOk ⟨none, some (23, 59, 59), some 999, some ⟨some false, [0, 5], some 45, some "a:b".toList⟩⟩ = true := by
   decide +kernel
 
-/-! ### the full-strength statement is false of the current code -/
+/-! ### evaluating the model on concrete texts -/
 
 def okIs (r : PyM Val) (v : Val) : Bool := match r with | .ok x => decide (x = v) | .error _ => false
 theorem eq_of_okIs {r : PyM Val} {v : Val} (h : okIs r v = true) : r = .ok v := by
@@ -164,41 +152,24 @@ theorem eq_of_isErr {r : PyM Val} {e : Err} (h : isErr r e = true) : r = .error 
   | ok x => simp at h
   | error x => simp at h; rw [h]
 
-/-- C09_read without the guard -/
-def C09_read_full : Prop :=
-  ∀ (tzs : List (Str × Int)) (required : Bool) (p : Parts), p.wf false = true →
-    (∀ o, p.off = some o → o.hdigits.length ≤ intMaxStrDigits) →
-    minInstant ≤ p.instant ∧ p.instant < endInstant →
-    ∃ v, dtConvertWith tzs required (.str p.render) = .ok v ∧ IsUtcOf v (1000 * p.instant)
+/-! ### regression witnesses of the repaired defects (were `_full_false` witnesses before the `fix:` commits) -/
 
-def negZeroWitness : Parts := ⟨some (2020, 1, 1), some (12, 0, 0), some 0, some ⟨some true, [0], some 30, none⟩⟩
-def nameDigitsWitness : Parts := ⟨some (2020, 1, 1), some (12, 0, 0), none, some ⟨none, [5], none, some "30".toList⟩⟩
+/-- `20200101120000.000[-0.30]` is 12:30 UTC (was read as 11:30) -/
+theorem fixed_negZero : dtConvertWith [] false (.str "20200101120000.000[-0.30]".toList)
+    = .ok (.dt ⟨2020, 1, 1, 12, 30, 0, 0, some utcTz⟩) := eq_of_okIs (by decide +kernel)
 
-/-- what the model (and the code) make of `20200101120000.000[-0.30]`: 11:30 UTC instead of 12:30 UTC -/
-theorem negZeroWitness_reads :
-    negZeroWitness.render = "20200101120000.000[-0.30]".toList ∧
-    dtConvertWith [] false (.str negZeroWitness.render)
-      = .ok (.dt ⟨2020, 1, 1, 11, 30, 0, 0, some utcTz⟩) :=
-  ⟨by decide +kernel, eq_of_okIs (by decide +kernel)⟩
+/-- `20200101120000[5:30]` is offset +5 with zone name "30": 07:00 UTC (was read as +5:30) -/
+theorem fixed_nameDigits : dtConvertWith [] false (.str "20200101120000[5:30]".toList)
+    = .ok (.dt ⟨2020, 1, 1, 7, 0, 0, 0, some utcTz⟩) := eq_of_okIs (by decide +kernel)
 
-/-- `20200101120000[5:30]` (offset +5, zone name "30") is read as offset +5:30: 06:30 UTC instead of 07:00 UTC -/
-theorem nameDigitsWitness_reads :
-    nameDigitsWitness.render = "20200101120000[5:30]".toList ∧
-    dtConvertWith [] false (.str nameDigitsWitness.render)
-      = .ok (.dt ⟨2020, 1, 1, 6, 30, 0, 0, some utcTz⟩) :=
-  ⟨by decide +kernel, eq_of_okIs (by decide +kernel)⟩
-
-theorem C09_read_full_false : ¬ C09_read_full := by
-  intro h
-  obtain ⟨v, hv, r, hr, _, _, hi⟩ := h [] false negZeroWitness (by decide +kernel)
-    (by intro o ho; simp only [negZeroWitness, Option.some.injEq] at ho; subst ho; decide) (by decide +kernel)
-  rw [negZeroWitness_reads.2] at hv
-  injection hv with hv
-  subst hv
-  injection hr with hr
-  subst hr
-  revert hi
-  decide +kernel
+/-- `[5x30]`, `[5.75]`, a final line feed: rejected (OFXSpecError) -/
+theorem fixed_lenient :
+    dtConvertWith [] false (.str "20200101120000[5x30]".toList) = .error .spec
+    ∧ dtConvertWith [] false (.str "20200101120000[5.75]".toList) = .error .spec
+    ∧ dtConvertWith [] false (.str "20200101\n".toList) = .error .spec
+    ∧ tmConvertWith [] false (.str "120000\n".toList) = .error .spec :=
+  ⟨eq_of_isErr (by decide +kernel), eq_of_isErr (by decide +kernel), eq_of_isErr (by decide +kernel),
+   eq_of_isErr (by decide +kernel)⟩
 
 /-! ## naive values, `None`, foreign types -/
 
@@ -242,83 +213,6 @@ theorem C09_foreign_types (tzs : List (Str × Int)) (required : Bool) (v : Val) 
     ∧ ((∀ t, v ≠ .tm t) → v ≠ .none → tmUnconvert required v = .error .type) := by
   cases v <;> simp [dtConvertWith, dtUnconvert, tmConvertWith, tmUnconvert]
 
-/-! ## rejecting -/
-
-/-- what `DateTime._convert_str` has accepted went through all of: regex, `int()`, `datetime(...)` validation -/
-theorem dtConvertStr_ok_inv (tzs : List (Str × Int)) (s : Str) (v : Val) (h : dtConvertStr tzs s = .ok v) :
-    ∃ g y mo d hh mi sec, dtRegex s = some g ∧ intOfAscii g.year = .ok y ∧ intOfAscii g.month = .ok mo
-      ∧ intOfAscii g.day = .ok d ∧ intOfAscii g.hour = .ok hh ∧ intOfAscii g.minute = .ok mi
-      ∧ intOfAscii g.second = .ok sec ∧ Cal.validDate y mo d = true ∧ hh < 24 ∧ mi < 60 ∧ sec < 60 := by
-  unfold dtConvertStr at h
-  cases hre : dtRegex s with
-  | none => simp [hre, bind, Except.bind] at h
-  | some g =>
-    simp only [hre, bind, Except.bind, pure, Except.pure] at h
-    cases ho : parseGmtOffset tzs g.offH g.offM g.name with
-    | error e => simp [ho] at h
-    | ok off =>
-      cases hy : intOfAscii g.year with
-      | error e => simp [ho, hy] at h
-      | ok y =>
-        cases hmo : intOfAscii g.month with
-        | error e => simp [ho, hy, hmo] at h
-        | ok mo =>
-          cases hd : intOfAscii g.day with
-          | error e => simp [ho, hy, hmo, hd] at h
-          | ok d =>
-            cases hh : intOfAscii g.hour with
-            | error e => simp [ho, hy, hmo, hd, hh] at h
-            | ok hr =>
-              cases hmi : intOfAscii g.minute with
-              | error e => simp [ho, hy, hmo, hd, hh, hmi] at h
-              | ok mi =>
-                cases hs : intOfAscii g.second with
-                | error e => simp [ho, hy, hmo, hd, hh, hmi, hs] at h
-                | ok sec =>
-                  cases hms : intOfAscii g.ms with
-                  | error e => simp [ho, hy, hmo, hd, hh, hmi, hs, hms] at h
-                  | ok ms =>
-                    simp only [ho, hy, hmo, hd, hh, hmi, hs, hms] at h
-                    by_cases hv : (Cal.validDate y mo d && validTime hr mi sec (1000 * ms)) = true
-                    · simp only [Bool.and_eq_true] at hv
-                      have hv2 := hv.2
-                      simp only [validTime, Bool.and_eq_true, decide_eq_true_eq] at hv2
-                      exact ⟨g, y, mo, d, hr, mi, sec, by first | rfl | assumption, by first | rfl | assumption, by first | rfl | assumption,
-                        by first | rfl | assumption, by first | rfl | assumption, by first | rfl | assumption,
-                        by first | rfl | assumption, hv.1, hv2.1.1.1, hv2.1.1.2, hv2.1.2⟩
-                    · simp [hv] at h
-
-/-- **C09_reject (date-time).** Whatever `DateTime.convert` accepts (one final line feed apart — known finding) begins
-    with eight ASCII digits `YYYYMMDD` forming a calendar-valid date (year 1..9999, month 1..12, day 1..days-in-month)
-    and then either ends or continues with six ASCII digits `HHMMSS` with HH < 24, MM < 60, SS < 60, after which it
-    ends or continues with `.` or `[`.  Hence: wrong length, letters, month 00/13, day 00/32, 31 April, 29 Feb of a
-    common year, hour 24, minute 60, second 60 are all rejected. -/
-theorem C09_reject (tzs : List (Str × Int)) (required : Bool) (s : Str) (v : Val)
-    (h : dtConvertWith tzs required (.str s) = .ok v) :
-    (s = stripFinalNewline s ∨ s = stripFinalNewline s ++ ['\n']) ∧
-    ∃ y m d rest, stripFinalNewline s = dateText y m d ++ rest ∧ Spec.Instant.validDate y m d = true ∧
-      (rest = [] ∨ ∃ hh mi sec rest', rest = todText hh mi sec ++ rest' ∧ validTod hh mi sec = true
-        ∧ (rest' = [] ∨ ∃ c t, rest' = c :: t ∧ (c = '.' ∨ c = '['))) := by
-  refine ⟨stripFinalNewline_cases s, ?_⟩
-  have h' : dtConvertStr tzs s = .ok v := h
-  obtain ⟨g, y, mo, d, hh, mi, sec, hre, hy, hmo, hd, hhh, hmi, hsec, hvd, b1, b2, b3⟩ := dtConvertStr_ok_inv tzs s v h'
-  obtain ⟨y1, y2, y3, y4, m1, m2, d1, d2c, r, hs, gy, gm, gd, hr⟩ := dtRegex_inv s g hre
-  rw [gy] at hy; rw [gm] at hmo; rw [gd] at hd
-  obtain ⟨_, ey⟩ := natOfAscii4_inv _ _ _ _ y (intOfAscii_some_ok _ _ hy)
-  obtain ⟨_, em⟩ := natOfAscii2_inv _ _ mo (intOfAscii_some_ok _ _ hmo)
-  obtain ⟨_, ed⟩ := natOfAscii2_inv _ _ d (intOfAscii_some_ok _ _ hd)
-  refine ⟨y, mo, d, r, ?_, by rw [spec_validDate_eq]; exact hvd, ?_⟩
-  · rw [hs, dateText, ← ey, ← em, ← ed]; rfl
-  · rcases hr with ⟨hr, _⟩ | ⟨h1, h2, mi1, mi2, s1, s2, r', hr, gh, gmi, gs, hshape⟩
-    · exact Or.inl hr
-    · right
-      rw [gh] at hhh; rw [gmi] at hmi; rw [gs] at hsec
-      obtain ⟨_, eh⟩ := natOfAscii2_inv _ _ hh (intOfAscii_some_ok _ _ hhh)
-      obtain ⟨_, emi⟩ := natOfAscii2_inv _ _ mi (intOfAscii_some_ok _ _ hmi)
-      obtain ⟨_, es⟩ := natOfAscii2_inv _ _ sec (intOfAscii_some_ok _ _ hsec)
-      refine ⟨hh, mi, sec, r', ?_, by simp [validTod, b1, b2, b3], hshape⟩
-      rw [hr, todText, ← eh, ← emi, ← es]; rfl
-
 /-! ## writing -/
 
 /-- naive ("wall clock") fields of a datetime as microseconds since ordinal 0 -/
@@ -336,12 +230,12 @@ theorem dtInstantUs_local (d : DT) (tz : Tz) (hv : dtValid d = true) (htz : d.tz
   unfold dtInstantUs localUs toUs
   rw [htz, Option.map_some, spec_ordinal_eq _ _ _ hm]
 
-/-- **C09_write (partial; text).** An aware, valid datetime whose offset is a whole number of minutes in
+/-- **C09_write (text).** An aware, valid datetime whose offset is a whole number of minutes in
     [-12:00, +14:00], whose zone name (if any) has no line feed and whose wall-clock time plus 500 µs lies in years
     1000..9999 is written as the text of the notation `YYYYMMDDHHMMSS.XXX[±h(.mm)?(:name)?]` (structurally: `p.render`
     with a date, a time of day, milliseconds and the canonical offset `canonOff`), and that text denotes the value's
     instant rounded to the nearest millisecond. -/
-theorem C09_write_partial (required : Bool) (d : DT) (tz : Tz)
+theorem C09_write (required : Bool) (d : DT) (tz : Tz)
     (hv : dtValid d = true) (htz : d.tz = some tz)
     (hwhole : tz.offUs % 60000000 = 0)
     (hoff : -720 ≤ tz.offUs / 60000000 ∧ tz.offUs / 60000000 ≤ 840)
@@ -391,123 +285,53 @@ theorem C09_write_partial (required : Bool) (d : DT) (tz : Tz)
     unfold toUs at v3
     omega
 
-/-- **C09_write (partial; write then read).** Under the hypotheses of `C09_write_partial`, if moreover the written
-    offset passes `readGuard` (i.e. the zone is not in (-1:00, 0) — known defect — and, for whole-hour zones, the
-    name does not begin with two digits — known defect) and the rounded instant lies in years 1..9999 (UTC), then
-    reading the written text back gives the UTC value denoting the original instant rounded to the millisecond. -/
-theorem C09_write_roundtrip_partial (tzs : List (Str × Int)) (required required' : Bool) (d : DT) (tz : Tz)
+/-- **C09_write (write then read).** Under the hypotheses of `C09_write`, if the rounded instant lies in years
+    1..9999 (UTC), reading the written text back gives the UTC value denoting the original instant rounded to the
+    millisecond (so within 500 µs of the original).  No guard is left: zones in (−1:00, 0) and zone names beginning
+    with digits read back correctly since the `fix:` commits. -/
+theorem C09_write_roundtrip (tzs : List (Str × Int)) (required required' : Bool) (d : DT) (tz : Tz)
     (hv : dtValid d = true) (htz : d.tz = some tz)
     (hwhole : tz.offUs % 60000000 = 0)
     (hoff : -720 ≤ tz.offUs / 60000000 ∧ tz.offUs / 60000000 ≤ 840)
     (hname : ∀ n, tz.name = some n → '\n' ∉ n)
     (hyear : us1000 ≤ localUs d + 500 ∧ localUs d + 500 < usEnd)
-    (hguard : readGuard (canonOff (tz.offUs / 60000000) tz.name) = true)
     (hutc : minInstant ≤ roundMs (localUs d - tz.offUs) ∧ roundMs (localUs d - tz.offUs) < endInstant) :
     ∃ (text : Str) (v : Val), dtUnconvert required (.dt d) = .ok (.str text)
       ∧ dtConvertWith tzs required' (.str text) = .ok v
       ∧ IsUtcOf v (1000 * roundMs (localUs d - tz.offUs))
       ∧ dtInstantUs d = some (localUs d - tz.offUs) := by
   obtain ⟨p, us, hus, hun, hwf, _, _, _, hpo, hpi⟩ :=
-    C09_write_partial required d tz hv htz hwhole hoff hname hyear
+    C09_write required d tz hv htz hwhole hoff hname hyear
   have hus' := dtInstantUs_local d tz hv htz
   rw [hus'] at hus
   injection hus with hus
   subst hus
-  have hg : partsReadGuard p = true := by simp only [partsReadGuard, hpo]; exact hguard
+  have hg : lenOk p = true := by
+    have hh : (tz.offUs / 60000000).natAbs / 60 < 25 := by omega
+    obtain ⟨_, _, _, _, hl⟩ := natDigits_small _ hh
+    simp only [lenOk, hpo, decide_eq_true_eq]
+    exact Nat.le_trans hl (by decide)
   rw [← hpi] at hutc
-  obtain ⟨v, hc, hi⟩ := C09_read_partial tzs required' p hwf hg hutc
+  obtain ⟨v, hc, hi⟩ := C09_read tzs required' p hwf hg hutc
   exact ⟨p.render, v, hun, hc, by rw [← hpi]; exact hi, hus'⟩
 
-/-- the guards of the write theorems are satisfiable: 2024-02-29T23:59:59.999500-03:30 "NST" -/
-example : dtValid ⟨2024, 2, 29, 23, 59, 59, 999500, some ⟨-12600000000, some "NST".toList⟩⟩ = true
-    ∧ (-12600000000 : Int) % 60000000 = 0
-    ∧ us1000 ≤ localUs ⟨2024, 2, 29, 23, 59, 59, 999500, some ⟨-12600000000, some "NST".toList⟩⟩ + 500
-    ∧ localUs ⟨2024, 2, 29, 23, 59, 59, 999500, some ⟨-12600000000, some "NST".toList⟩⟩ + 500 < usEnd
-    ∧ readGuard (canonOff ((-12600000000 : Int) / 60000000) (some "NST".toList)) = true := by decide +kernel
-
-def C09_write_roundtrip_full : Prop :=
-  ∀ (tzs : List (Str × Int)) (d : DT) (tz : Tz), dtValid d = true → d.tz = some tz →
-    tz.offUs % 60000000 = 0 → (-720 ≤ tz.offUs / 60000000 ∧ tz.offUs / 60000000 ≤ 840) →
-    (∀ n, tz.name = some n → '\n' ∉ n) → (us1000 ≤ localUs d + 500 ∧ localUs d + 500 < usEnd) →
-    (minInstant ≤ roundMs (localUs d - tz.offUs) ∧ roundMs (localUs d - tz.offUs) < endInstant) →
-    ∃ (text : Str) (v : Val), dtUnconvert false (.dt d) = .ok (.str text)
-      ∧ dtConvertWith tzs false (.str text) = .ok v ∧ IsUtcOf v (1000 * roundMs (localUs d - tz.offUs))
-
-def writeWitness : DT := ⟨2020, 1, 1, 12, 0, 0, 0, some ⟨-1800000000, none⟩⟩
-
-/-- the library writes noon at -00:30 as `20200101120000.000[-0.30]` and reads that back as 11:30 UTC (not 12:30) -/
-theorem writeWitness_roundtrip :
-    dtUnconvert false (.dt writeWitness) = .ok (.str "20200101120000.000[-0.30]".toList)
-    ∧ dtConvertWith [] false (.str "20200101120000.000[-0.30]".toList)
-        = .ok (.dt ⟨2020, 1, 1, 11, 30, 0, 0, some utcTz⟩) :=
-  ⟨eq_of_okIs (by decide +kernel), eq_of_okIs (by decide +kernel)⟩
-
-theorem C09_write_roundtrip_full_false : ¬ C09_write_roundtrip_full := by
-  intro h
-  obtain ⟨text, v, h1, h2, r, hr, _, _, hi⟩ := h [] writeWitness ⟨-1800000000, none⟩ (by decide +kernel) rfl
-    (by decide +kernel) (by decide +kernel) (by intro n hn; simp at hn) (by decide +kernel) (by decide +kernel)
-  rw [writeWitness_roundtrip.1] at h1
-  injection h1 with h1
-  injection h1 with h1
-  subst h1
-  rw [writeWitness_roundtrip.2] at h2
-  injection h2 with h2
-  subst h2
-  injection hr with hr
-  subst hr
-  revert hi
+/-- the hypotheses of the write theorems are satisfiable, also by the formerly excluded zone −00:30:
+    2024-02-29T23:59:59.999500−00:30 "30" (a name beginning with digits) -/
+example : dtValid ⟨2024, 2, 29, 23, 59, 59, 999500, some ⟨-1800000000, some "30".toList⟩⟩ = true
+    ∧ (-1800000000 : Int) % 60000000 = 0
+    ∧ us1000 ≤ localUs ⟨2024, 2, 29, 23, 59, 59, 999500, some ⟨-1800000000, some "30".toList⟩⟩ + 500
+    ∧ localUs ⟨2024, 2, 29, 23, 59, 59, 999500, some ⟨-1800000000, some "30".toList⟩⟩ + 500 < usEnd := by
   decide +kernel
 
-/-! ## Time: rejecting and writing -/
+/-- regression witness: noon at −00:30 is written `20200101120000.000[-0.30]` and reads back as 12:30 UTC -/
+theorem fixed_write_roundtrip :
+    dtUnconvert false (.dt ⟨2020, 1, 1, 12, 0, 0, 0, some ⟨-1800000000, none⟩⟩)
+      = .ok (.str "20200101120000.000[-0.30]".toList)
+    ∧ dtConvertWith [] false (.str "20200101120000.000[-0.30]".toList)
+        = .ok (.dt ⟨2020, 1, 1, 12, 30, 0, 0, some utcTz⟩) :=
+  ⟨eq_of_okIs (by decide +kernel), eq_of_okIs (by decide +kernel)⟩
 
-theorem tmConvertStr_ok_inv (tzs : List (Str × Int)) (s : Str) (v : Val) (h : tmConvertStr tzs s = .ok v) :
-    ∃ g hh mi sec, tmRegex s = some g ∧ intOfAscii g.hour = .ok hh ∧ intOfAscii g.minute = .ok mi
-      ∧ intOfAscii g.second = .ok sec ∧ hh < 24 ∧ mi < 60 ∧ sec < 60 := by
-  unfold tmConvertStr at h
-  cases hre : tmRegex s with
-  | none => simp [hre, bind, Except.bind] at h
-  | some g =>
-    simp only [hre, bind, Except.bind, pure, Except.pure] at h
-    cases ho : parseGmtOffset tzs g.offH g.offM g.name with
-    | error e => simp [ho] at h
-    | ok off =>
-      cases hh : intOfAscii g.hour with
-      | error e => simp [ho, hh] at h
-      | ok hr =>
-        cases hmi : intOfAscii g.minute with
-        | error e => simp [ho, hh, hmi] at h
-        | ok mi =>
-          cases hs : intOfAscii g.second with
-          | error e => simp [ho, hh, hmi, hs] at h
-          | ok sec =>
-            cases hms : intOfAscii g.ms with
-            | error e => simp [ho, hh, hmi, hs, hms] at h
-            | ok ms =>
-              simp only [ho, hh, hmi, hs, hms] at h
-              by_cases hv : validTime hr mi sec (1000 * ms) = true
-              · simp only [validTime, Bool.and_eq_true, decide_eq_true_eq] at hv
-                exact ⟨g, hr, mi, sec, by first | rfl | assumption, by first | rfl | assumption,
-                  by first | rfl | assumption, by first | rfl | assumption, hv.1.1.1, hv.1.1.2, hv.1.2⟩
-              · simp [hv] at h
-
-/-- **C09_time_reject.** Whatever `Time.convert` accepts (one final line feed apart) begins with six ASCII digits
-    `HHMMSS`, HH < 24, MM < 60, SS < 60, and then ends or continues with `.` or `[`. -/
-theorem C09_time_reject (tzs : List (Str × Int)) (required : Bool) (s : Str) (v : Val)
-    (h : tmConvertWith tzs required (.str s) = .ok v) :
-    (s = stripFinalNewline s ∨ s = stripFinalNewline s ++ ['\n']) ∧
-    ∃ hh mi sec rest', stripFinalNewline s = todText hh mi sec ++ rest' ∧ validTod hh mi sec = true
-        ∧ (rest' = [] ∨ ∃ c t, rest' = c :: t ∧ (c = '.' ∨ c = '[')) := by
-  refine ⟨stripFinalNewline_cases s, ?_⟩
-  have h' : tmConvertStr tzs s = .ok v := h
-  obtain ⟨g, hh, mi, sec, hre, hhh, hmi, hsec, b1, b2, b3⟩ := tmConvertStr_ok_inv tzs s v h'
-  unfold tmRegex at hre
-  obtain ⟨h1, h2, mi1, mi2, s1, s2, r', hr, _, _, _, gh, gmi, gs, hshape⟩ := timePart_inv _ _ _ hre
-  rw [gh] at hhh; rw [gmi] at hmi; rw [gs] at hsec
-  obtain ⟨_, eh⟩ := natOfAscii2_inv _ _ hh (intOfAscii_some_ok _ _ hhh)
-  obtain ⟨_, emi⟩ := natOfAscii2_inv _ _ mi (intOfAscii_some_ok _ _ hmi)
-  obtain ⟨_, es⟩ := natOfAscii2_inv _ _ sec (intOfAscii_some_ok _ _ hsec)
-  refine ⟨hh, mi, sec, r', ?_, by simp [validTod, b1, b2, b3], hshape⟩
-  rw [hr, todText, ← eh, ← emi, ← es]; rfl
+/-! ## Time: writing -/
 
 /-- time of day of a `time` value in microseconds -/
 def todUs (t : TM) : Int := ((t.hour * 3600 + t.minute * 60 + t.second : Nat) : Int) * 1000000 + (t.us : Nat)
@@ -517,10 +341,10 @@ theorem tmInstantUs_local (t : TM) (tz : Tz) (htz : t.tz = some tz) :
   unfold tmInstantUs todUs
   rw [htz, Option.map_some]
 
-/-- **C09_time_write (partial; text).** An aware, valid `time` whose offset is a whole number of minutes in
+/-- **C09_time_write (text).** An aware, valid `time` whose offset is a whole number of minutes in
     [-12:00, +14:00] and whose zone name has no line feed is written as `HHMMSS.XXX[±h(.mm)?(:name)?]`, denoting the
     value's instant (mod 24 h) rounded to the nearest millisecond (mod 24 h). -/
-theorem C09_time_write_partial (required : Bool) (t : TM) (tz : Tz)
+theorem C09_time_write (required : Bool) (t : TM) (tz : Tz)
     (hv : tmValid t = true) (htz : t.tz = some tz)
     (hwhole : tz.offUs % 60000000 = 0)
     (hoff : -720 ≤ tz.offUs / 60000000 ∧ tz.offUs / 60000000 ≤ 840)
@@ -562,90 +386,375 @@ theorem C09_time_write_partial (required : Bool) (t : TM) (tz : Tz)
     generalize todUs t = U at *
     omega
 
-/-- **C09_time_write (partial; write then read).** -/
-theorem C09_time_write_roundtrip_partial (tzs : List (Str × Int)) (required required' : Bool) (t : TM) (tz : Tz)
+/-- **C09_time_write (write then read).** -/
+theorem C09_time_write_roundtrip (tzs : List (Str × Int)) (required required' : Bool) (t : TM) (tz : Tz)
     (hv : tmValid t = true) (htz : t.tz = some tz)
     (hwhole : tz.offUs % 60000000 = 0)
     (hoff : -720 ≤ tz.offUs / 60000000 ∧ tz.offUs / 60000000 ≤ 840)
-    (hname : ∀ n, tz.name = some n → '\n' ∉ n)
-    (hguard : readGuard (canonOff (tz.offUs / 60000000) tz.name) = true) :
+    (hname : ∀ n, tz.name = some n → '\n' ∉ n) :
     ∃ (text : Str) (v : Val), tmUnconvert required (.tm t) = .ok (.str text)
       ∧ tmConvertWith tzs required' (.str text) = .ok v
       ∧ IsUtcTimeOf v (1000 * (roundMs ((todUs t - tz.offUs) % 86400000000) % 86400000))
       ∧ tmInstantUs t = some ((todUs t - tz.offUs) % 86400000000) := by
-  obtain ⟨p, hun, hwf, _, _, _, hpo, hpi⟩ := C09_time_write_partial required t tz hv htz hwhole hoff hname
-  have hg : partsReadGuard p = true := by simp only [partsReadGuard, hpo]; exact hguard
-  obtain ⟨v, hc, hi⟩ := C09_time_read_partial tzs required' p hwf hg
+  obtain ⟨p, hun, hwf, _, _, _, hpo, hpi⟩ := C09_time_write required t tz hv htz hwhole hoff hname
+  have hg : lenOk p = true := by
+    have hh : (tz.offUs / 60000000).natAbs / 60 < 25 := by omega
+    obtain ⟨_, _, _, _, hl⟩ := natDigits_small _ hh
+    simp only [lenOk, hpo, decide_eq_true_eq]
+    exact Nat.le_trans hl (by decide)
+  obtain ⟨v, hc, hi⟩ := C09_time_read tzs required' p hwf hg
   exact ⟨p.render, v, hun, hc, by rw [← hpi]; exact hi, tmInstantUs_local t tz htz⟩
 
-/-- the guards of the time write theorems are satisfiable: 23:59:59.999500+05:45 "NPT" -/
+/-- the hypotheses of the time write theorems are satisfiable: 23:59:59.999500+05:45 "NPT" -/
 example : tmValid ⟨23, 59, 59, 999500, some ⟨20700000000, some "NPT".toList⟩⟩ = true
     ∧ (20700000000 : Int) % 60000000 = 0
-    ∧ -720 ≤ (20700000000 : Int) / 60000000 ∧ (20700000000 : Int) / 60000000 ≤ 840
-    ∧ readGuard (canonOff ((20700000000 : Int) / 60000000) (some "NPT".toList)) = true := by decide +kernel
+    ∧ -720 ≤ (20700000000 : Int) / 60000000 ∧ (20700000000 : Int) / 60000000 ≤ 840 := by decide +kernel
 
-/-- a short text is rejected (corollary of `C09_reject`; e.g. `2020010`, `202001011200` is handled by the shape clause) -/
-theorem C09_reject_short (tzs : List (Str × Int)) (required : Bool) (s : Str) (hlen : s.length < 8) (v : Val) :
-    dtConvertWith tzs required (.str s) ≠ .ok v := by
-  intro h
-  obtain ⟨hs, y, m, d, rest, he, _, _⟩ := C09_reject tzs required s v h
-  have h8 : (dateText y m d).length = 8 := by simp [dateText, d4, d2]
-  have hl : (stripFinalNewline s).length ≥ 8 := by rw [he, List.length_append]; omega
-  rcases hs with hs | hs
-  · rw [← hs] at hl; omega
-  · have := congrArg List.length hs
-    rw [List.length_append] at this
-    simp at this
-    omega
+/-! ## rejecting: everything accepted is in the notation (or the Interactive Brokers form) -/
 
-/-! ### the full-strength rejection statement is false of the current code -/
+/-- what `DateTime._convert_str` has accepted went through all of: regex, offset parsing, `int()`, validation -/
+theorem dtConvertStr_ok_inv (tzs : List (Str × Int)) (s : Str) (v : Val) (h : dtConvertStr tzs s = .ok v) :
+    ∃ g y mo d hh mi sec ms off, dtRegex s = some g ∧ parseGmtOffset tzs g.offH g.offM g.name = .ok off
+      ∧ intOfAscii g.year = .ok y ∧ intOfAscii g.month = .ok mo
+      ∧ intOfAscii g.day = .ok d ∧ intOfAscii g.hour = .ok hh ∧ intOfAscii g.minute = .ok mi
+      ∧ intOfAscii g.second = .ok sec ∧ intOfAscii g.ms = .ok ms
+      ∧ Cal.validDate y mo d = true ∧ hh < 24 ∧ mi < 60 ∧ sec < 60 := by
+  unfold dtConvertStr at h
+  cases hre : dtRegex s with
+  | none => simp [hre, bind, Except.bind] at h
+  | some g =>
+    simp only [hre, bind, Except.bind, pure, Except.pure] at h
+    cases ho : parseGmtOffset tzs g.offH g.offM g.name with
+    | error e => simp [ho] at h
+    | ok off =>
+      cases hy : intOfAscii g.year with
+      | error e => simp [ho, hy] at h
+      | ok y =>
+        cases hmo : intOfAscii g.month with
+        | error e => simp [ho, hy, hmo] at h
+        | ok mo =>
+          cases hd : intOfAscii g.day with
+          | error e => simp [ho, hy, hmo, hd] at h
+          | ok d =>
+            cases hh : intOfAscii g.hour with
+            | error e => simp [ho, hy, hmo, hd, hh] at h
+            | ok hr =>
+              cases hmi : intOfAscii g.minute with
+              | error e => simp [ho, hy, hmo, hd, hh, hmi] at h
+              | ok mi =>
+                cases hs : intOfAscii g.second with
+                | error e => simp [ho, hy, hmo, hd, hh, hmi, hs] at h
+                | ok sec =>
+                  cases hms : intOfAscii g.ms with
+                  | error e => simp [ho, hy, hmo, hd, hh, hmi, hs, hms] at h
+                  | ok ms =>
+                    simp only [ho, hy, hmo, hd, hh, hmi, hs, hms] at h
+                    by_cases hv : (Cal.validDate y mo d && validTime hr mi sec (1000 * ms)) = true
+                    · simp only [Bool.and_eq_true] at hv
+                      have hv2 := hv.2
+                      simp only [validTime, Bool.and_eq_true, decide_eq_true_eq] at hv2
+                      exact ⟨g, y, mo, d, hr, mi, sec, ms, off, by first | rfl | assumption,
+                        by first | rfl | assumption, by first | rfl | assumption, by first | rfl | assumption,
+                        by first | rfl | assumption, by first | rfl | assumption, by first | rfl | assumption,
+                        by first | rfl | assumption, by first | rfl | assumption,
+                        hv.1, hv2.1.1.1, hv2.1.1.2, hv2.1.2⟩
+                    · simp [hv] at h
 
-/-- "texts outside the notation are rejected", literally -/
+theorem tmConvertStr_ok_inv (tzs : List (Str × Int)) (s : Str) (v : Val) (h : tmConvertStr tzs s = .ok v) :
+    ∃ g hh mi sec ms off, tmRegex s = some g ∧ parseGmtOffset tzs g.offH g.offM g.name = .ok off
+      ∧ intOfAscii g.hour = .ok hh ∧ intOfAscii g.minute = .ok mi
+      ∧ intOfAscii g.second = .ok sec ∧ intOfAscii g.ms = .ok ms ∧ hh < 24 ∧ mi < 60 ∧ sec < 60 := by
+  unfold tmConvertStr at h
+  cases hre : tmRegex s with
+  | none => simp [hre, bind, Except.bind] at h
+  | some g =>
+    simp only [hre, bind, Except.bind, pure, Except.pure] at h
+    cases ho : parseGmtOffset tzs g.offH g.offM g.name with
+    | error e => simp [ho] at h
+    | ok off =>
+      cases hh : intOfAscii g.hour with
+      | error e => simp [ho, hh] at h
+      | ok hr =>
+        cases hmi : intOfAscii g.minute with
+        | error e => simp [ho, hh, hmi] at h
+        | ok mi =>
+          cases hs : intOfAscii g.second with
+          | error e => simp [ho, hh, hmi, hs] at h
+          | ok sec =>
+            cases hms : intOfAscii g.ms with
+            | error e => simp [ho, hh, hmi, hs, hms] at h
+            | ok ms =>
+              simp only [ho, hh, hmi, hs, hms] at h
+              by_cases hv : validTime hr mi sec (1000 * ms) = true
+              · simp only [validTime, Bool.and_eq_true, decide_eq_true_eq] at hv
+                exact ⟨g, hr, mi, sec, ms, off, by first | rfl | assumption, by first | rfl | assumption,
+                  by first | rfl | assumption, by first | rfl | assumption, by first | rfl | assumption,
+                  by first | rfl | assumption, hv.1.1.1, hv.1.1.2, hv.1.2⟩
+              · simp [hv] at h
+
+/-- how `parse_gmt_offset` can succeed on an hours text: it is an integer −12 … 14, or it is not an integer and the
+    zone name is in the table (Interactive Brokers) -/
+theorem parseGmtOffset_some_inv (tzs : List (Str × Int)) (hh : Str) (om nm : Option Str) (off : Int)
+    (h : parseGmtOffset tzs (some hh) om nm = .ok off) :
+    (∃ hv, pyIntSigned hh = some hv ∧ -12 ≤ hv ∧ hv ≤ 14)
+    ∨ (pyIntSigned hh = none ∧ ∃ n z, nm = some n ∧ tzs.lookup n = some z) := by
+  unfold parseGmtOffset at h
+  cases hp : pyIntSigned hh with
+  | some hv =>
+    left
+    simp only [hp, bind, Except.bind, pure, Except.pure] at h
+    cases hm : intOfAscii om with
+    | error e => simp [hm] at h
+    | ok m =>
+      simp only [hm] at h
+      unfold gmtOffset at h
+      by_cases hr : hv < -12 ∨ hv > 14
+      · simp [hr] at h
+      · exact ⟨hv, rfl, by omega, by omega⟩
+  | none =>
+    right
+    refine ⟨rfl, ?_⟩
+    simp only [hp, bind, Except.bind] at h
+    cases nm with
+    | none => simp at h
+    | some n =>
+      cases hl : tzs.lookup n with
+      | none => simp [hl] at h
+      | some z => exact ⟨n, z, rfl, hl⟩
+
+/-- The Interactive Brokers form, which the code accepts on purpose although it is outside the notation: a text of the
+    notation without offset (but with a time of day) followed by `[h(.MM)?:NAME]` where `h` is a non-empty text over
+    `[0-9+-]` that is *not* an integer (typically just `-`) and `NAME` is a key of the zone table. -/
+def IsIBForm (tzs : List (Str × Int)) (isTime : Bool) (s : Str) : Prop :=
+  ∃ (p : Parts) (hh n : Str) (mm : Option Nat) (z : Int),
+    p.wf isTime = true ∧ p.off = none ∧ p.tod.isSome = true
+    ∧ hh ≠ [] ∧ (∀ c ∈ hh, isHoursChar c = true) ∧ pyIntSigned hh = none
+    ∧ (∀ m, mm = some m → m < 60) ∧ '\n' ∉ n ∧ tzs.lookup n = some z
+    ∧ s = p.render ++ '[' :: (hh ++ (minutesText mm ++ (':' :: (n ++ [']']))))
+
+/-- what follows the seconds in an accepted text: `.XXX`? then nothing, a well-formed `[offset]`, or the IB bracket -/
+theorem tail_classify (tzs : List (Str × Int)) (g : Groups) (r : Str) (hts : TailStruct g r)
+    (ms : Nat) (hms : intOfAscii g.ms = .ok ms) (off : Int)
+    (hoff : parseGmtOffset tzs g.offH g.offM g.name = .ok off) :
+    ∃ msO : Option Nat, (∀ x, msO = some x → x < 1000) ∧
+      ((∃ offO : Option OffText, (∀ o, offO = some o → o.wf = true) ∧ r = msText msO ++ offText offO)
+       ∨ (∃ (hh n : Str) (mm : Option Nat) (z : Int), hh ≠ [] ∧ (∀ c ∈ hh, isHoursChar c = true)
+            ∧ pyIntSigned hh = none ∧ (∀ m, mm = some m → m < 60) ∧ '\n' ∉ n ∧ tzs.lookup n = some z
+            ∧ r = msText msO ++ '[' :: (hh ++ (minutesText mm ++ (':' :: (n ++ [']'])))))) := by
+  obtain ⟨r2, hr, hmsd, hofs⟩ := hts
+  -- milliseconds
+  have hmsO : ∃ msO : Option Nat, (∀ x, msO = some x → x < 1000) ∧ msRaw g.ms = msText msO := by
+    cases hg : g.ms with
+    | none => exact ⟨none, by simp, rfl⟩
+    | some t =>
+      obtain ⟨a, b, c, rfl, _, _, _⟩ := hmsd t hg
+      rw [hg] at hms
+      obtain ⟨hlt, e⟩ := natOfAscii3_inv a b c ms (intOfAscii_some_ok _ _ hms)
+      exact ⟨some ms, by intro x hx; injection hx with hx; omega, by simp [msRaw, msText, e]⟩
+  obtain ⟨msO, hmsO1, hmsO2⟩ := hmsO
+  refine ⟨msO, hmsO1, ?_⟩
+  rw [hr, hmsO2]
+  rcases hofs with ⟨rfl, _, _, _⟩ | ⟨t, hh, rfl, hoh, hscan⟩
+  · exact Or.inl ⟨none, by simp, by simp [offText]⟩
+  · rw [hoh] at hoff
+    rcases parseGmtOffset_some_inv tzs hh g.offM g.name off hoff with ⟨hv, hp, h1, h2⟩ | ⟨hp, n, z, hn, hz⟩
+    · obtain ⟨o, hwf, ht, _, _, _⟩ := offset_in_notation hh g.offM g.name t hv hscan hp ⟨h1, h2⟩
+      exact Or.inl ⟨some o, by intro o' ho'; injection ho' with ho'; subst ho'; exact hwf, by simp [offText, ht]⟩
+    · right
+      obtain ⟨h', t', hne, hall, ht, hofft⟩ := hoursScan_inv t [] _ hscan
+      simp only [List.reverse_nil, List.nil_append] at hofft
+      obtain ⟨e1, mt, rest', hrest, hnt, hmt⟩ := offTail_inv _ _ _ hofft
+      simp only at e1 hnt hmt
+      subst e1
+      have hmin : ∃ mm : Option Nat, (∀ m, mm = some m → m < 60) ∧ mt = minutesText mm := by
+        rcases hmt with ⟨rfl, _⟩ | ⟨d1, d2c, rfl, hok, _⟩
+        · exact ⟨none, by simp, rfl⟩
+        · obtain ⟨mm, hmm, e⟩ := min2Ok_inv d1 d2c hok
+          exact ⟨some mm, by intro m hm; injection hm with hm; omega, by simp [minutesText, ← e]⟩
+      obtain ⟨mm, hmm, emt⟩ := hmin
+      rw [hn] at hnt
+      rcases nameTail_inv _ _ hnt with ⟨hcontra, _⟩ | ⟨n', hn', hrest', hnl⟩
+      · exact absurd hcontra (by simp)
+      · injection hn' with hn'
+        subst hn'
+        exact ⟨hh, n, mm, z, hne, hall, hp, hmm, hnl, hz, by rw [ht, hrest, emt, hrest']⟩
+
+theorem ms_wf : ∀ (msO : Option Nat), (match msO with | some ms => decide (ms < 1000) | none => true) = true ∨
+    ¬ (∀ x, msO = some x → x < 1000) := by
+  intro msO
+  cases msO with
+  | none => exact Or.inl rfl
+  | some x =>
+    by_cases h : x < 1000
+    · exact Or.inl (by simpa using h)
+    · exact Or.inr (fun hh => h (hh x rfl))
+
+/-- **C09_reject.** Every text `DateTime.convert` accepts is in the OFX date-time notation — eight digits forming a
+    calendar-valid date; optionally `HHMMSS` with H<24, M<60, S<60; then optionally `.XXX`; then optionally
+    `[` sign? digits+ (`.MM` with MM<60)? (`:name` without line feed)? `]` with hours −12 … +14 — or in the Interactive
+    Brokers form (`IsIBForm`, accepted by design).  Hence wrong length, letters, month 13, day 0/32, calendar-invalid
+    dates, hour 24, minute 60, second 60, a trailing line feed, any other separator than `.` before the offset
+    minutes, offset minutes ≥ 60, non-ASCII digits, and odd hour texts such as `5-3` or `+-5` (they pass the pattern
+    `[0-9-+]+` but fail in `int()`: ValueError) are all rejected. -/
+theorem C09_reject (tzs : List (Str × Int)) (required : Bool) (s : Str) (v : Val)
+    (h : dtConvertWith tzs required (.str s) = .ok v) :
+    InNotation false s ∨ IsIBForm tzs false s := by
+  have h' : dtConvertStr tzs s = .ok v := h
+  obtain ⟨g, y, mo, d, hh, mi, sec, ms, off, hre, hoff, hy, hmo, hd, hhh, hmi, hsec, hms, hvd, b1, b2, b3⟩ :=
+    dtConvertStr_ok_inv tzs s v h'
+  obtain ⟨y1, y2, y3, y4, m1, m2, d1, d2c, r, hs, gy, gm, gd, hr⟩ := dtRegex_struct s g hre
+  rw [gy] at hy; rw [gm] at hmo; rw [gd] at hd
+  obtain ⟨_, ey⟩ := natOfAscii4_inv _ _ _ _ y (intOfAscii_some_ok _ _ hy)
+  obtain ⟨_, em⟩ := natOfAscii2_inv _ _ mo (intOfAscii_some_ok _ _ hmo)
+  obtain ⟨_, ed⟩ := natOfAscii2_inv _ _ d (intOfAscii_some_ok _ _ hd)
+  have hsv : Spec.Instant.validDate y mo d = true := by rw [spec_validDate_eq]; exact hvd
+  have hdate : s = dateText y mo d ++ r := by rw [hs, dateText, ← ey, ← em, ← ed]; rfl
+  rcases hr with ⟨hr, _⟩ | ⟨h1, h2, mi1, mi2, s1, s2, r', hr, gh, gmi, gs, hts⟩
+  · left
+    refine ⟨⟨some (y, mo, d), none, none, none⟩, ?_, ?_⟩
+    · simp [Parts.wf, hsv]
+    · rw [hdate, hr]; simp [Parts.render, dateText]
+  · rw [gh] at hhh; rw [gmi] at hmi; rw [gs] at hsec
+    obtain ⟨_, eh⟩ := natOfAscii2_inv _ _ hh (intOfAscii_some_ok _ _ hhh)
+    obtain ⟨_, emi⟩ := natOfAscii2_inv _ _ mi (intOfAscii_some_ok _ _ hmi)
+    obtain ⟨_, es⟩ := natOfAscii2_inv _ _ sec (intOfAscii_some_ok _ _ hsec)
+    have htod : r = todText hh mi sec ++ r' := by rw [hr, todText, ← eh, ← emi, ← es]; rfl
+    have hvt : validTod hh mi sec = true := by simp [validTod, b1, b2, b3]
+    obtain ⟨msO, hmsO, hcl⟩ := tail_classify tzs g r' hts ms hms off hoff
+    have hmswf := (ms_wf msO).resolve_right (fun hn => hn hmsO)
+    rcases hcl with ⟨offO, howf, hr'⟩ | ⟨hh', n, mm, z, c1, c2, c3, c4, c5, c6, hr'⟩
+    · left
+      refine ⟨⟨some (y, mo, d), some (hh, mi, sec), msO, offO⟩, ?_, ?_⟩
+      · simp only [Parts.wf, Bool.and_eq_true]
+        refine ⟨⟨⟨by simp [hsv], hvt⟩, hmswf⟩, ?_⟩
+        cases offO with
+        | none => rfl
+        | some o => exact howf o rfl
+      · rw [render_full, hdate, htod, hr']
+    · right
+      refine ⟨⟨some (y, mo, d), some (hh, mi, sec), msO, none⟩, hh', n, mm, z, ?_, rfl, rfl, c1, c2, c3, c4, c5, c6, ?_⟩
+      · simp only [Parts.wf, Bool.and_eq_true]
+        exact ⟨⟨⟨by simp [hsv], hvt⟩, hmswf⟩, trivial⟩
+      · rw [render_full, hdate, htod, hr']; simp [offText]
+
+/-- **C09_time_reject.** The same for `Time.convert` and the time notation. -/
+theorem C09_time_reject (tzs : List (Str × Int)) (required : Bool) (s : Str) (v : Val)
+    (h : tmConvertWith tzs required (.str s) = .ok v) :
+    InNotation true s ∨ IsIBForm tzs true s := by
+  have h' : tmConvertStr tzs s = .ok v := h
+  obtain ⟨g, hh, mi, sec, ms, off, hre, hoff, hhh, hmi, hsec, hms, b1, b2, b3⟩ := tmConvertStr_ok_inv tzs s v h'
+  unfold tmRegex at hre
+  obtain ⟨h1, h2, mi1, mi2, s1, s2, r', hr, _, _, _, gh, gmi, gs, hts⟩ :=
+    timePart_struct _ _ _ ⟨rfl, rfl, rfl, rfl⟩ hre
+  rw [gh] at hhh; rw [gmi] at hmi; rw [gs] at hsec
+  obtain ⟨_, eh⟩ := natOfAscii2_inv _ _ hh (intOfAscii_some_ok _ _ hhh)
+  obtain ⟨_, emi⟩ := natOfAscii2_inv _ _ mi (intOfAscii_some_ok _ _ hmi)
+  obtain ⟨_, es⟩ := natOfAscii2_inv _ _ sec (intOfAscii_some_ok _ _ hsec)
+  have htod : s = todText hh mi sec ++ r' := by rw [hr, todText, ← eh, ← emi, ← es]; rfl
+  have hvt : validTod hh mi sec = true := by simp [validTod, b1, b2, b3]
+  obtain ⟨msO, hmsO, hcl⟩ := tail_classify tzs g r' hts ms hms off hoff
+  have hmswf := (ms_wf msO).resolve_right (fun hn => hn hmsO)
+  rcases hcl with ⟨offO, howf, hr'⟩ | ⟨hh', n, mm, z, c1, c2, c3, c4, c5, c6, hr'⟩
+  · left
+    refine ⟨⟨none, some (hh, mi, sec), msO, offO⟩, ?_, ?_⟩
+    · simp only [Parts.wf, Bool.and_eq_true]
+      refine ⟨⟨⟨trivial, hvt⟩, hmswf⟩, ?_⟩
+      cases offO with
+      | none => rfl
+      | some o => exact howf o rfl
+    · rw [render_time, htod, hr']
+  · right
+    refine ⟨⟨none, some (hh, mi, sec), msO, none⟩, hh', n, mm, z, ?_, rfl, rfl, c1, c2, c3, c4, c5, c6, ?_⟩
+    · simp only [Parts.wf, Bool.and_eq_true]
+      exact ⟨⟨⟨trivial, hvt⟩, hmswf⟩, trivial⟩
+    · rw [render_time, htod, hr']; simp [offText]
+
+
+/-! ### what is still false, and why -/
+
+/-- "accepted ⇒ in the notation", literally.  False only because of the deliberate Interactive Brokers workaround. -/
 def C09_reject_full : Prop :=
   ∀ (tzs : List (Str × Int)) (s : Str) (v : Val), dtConvertWith tzs false (.str s) = .ok v → InNotation false s
 
-/-- no text of the notation ends in a line feed -/
-theorem render_last (t : Bool) (p : Parts) (hwf : p.wf t = true) :
-    ∃ pre c, c ≠ '\n' ∧ p.render = pre ++ [c] := by
-  obtain ⟨date, tod, ms, off⟩ := p
-  simp only [Parts.wf, Bool.and_eq_true] at hwf
-  obtain ⟨⟨⟨hd, ht⟩, _⟩, _⟩ := hwf
-  cases tod with
-  | none =>
-    simp only [Bool.and_eq_true, Option.isNone_iff_eq_none] at ht
-    obtain ⟨⟨_, rfl⟩, rfl⟩ := ht
-    cases date with
-    | none => simp_all
-    | some ymd =>
-      obtain ⟨y, m, d⟩ := ymd
-      exact ⟨d4 y ++ d2 m ++ [dch (d / 10)], dch d, dch_ne_newline d, by simp [Parts.render, d2]⟩
-  | some hms =>
-    obtain ⟨h, mi, sec⟩ := hms
-    cases date with
-    | none =>
-      obtain ⟨pre', c', hc', he⟩ := snoc_of_tail ms off (d2 h ++ d2 mi ++ [dch (sec / 10)]) (dch sec) (dch_ne_newline sec)
-      refine ⟨pre', c', hc', ?_⟩
-      rw [← he]
-      cases ms <;> cases off <;> simp [Parts.render, msText, offText, d2]
-    | some ymd =>
-      obtain ⟨y, m, d⟩ := ymd
-      obtain ⟨pre', c', hc', he⟩ := snoc_of_tail ms off (d4 y ++ d2 m ++ d2 d ++ d2 h ++ d2 mi ++ [dch (sec / 10)])
-        (dch sec) (dch_ne_newline sec)
-      refine ⟨pre', c', hc', ?_⟩
-      rw [← he]
-      cases ms <;> cases off <;> simp [Parts.render, msText, offText, d2]
-
-/-- `"20200101\n"` (nine characters) is accepted as 2020-01-01T00:00Z although it is outside the notation
-    (`$` matches before a final line feed) -/
+/-- `20200101120000[-:EST]` is accepted (as 17:00 UTC) although `-` is not an hours value -/
 theorem C09_reject_full_false : ¬ C09_reject_full := by
   intro h
-  have hacc : dtConvertWith [] false (.str "20200101\n".toList)
-      = .ok (.dt ⟨2020, 1, 1, 0, 0, 0, 0, some utcTz⟩) := eq_of_okIs (by decide +kernel)
-  obtain ⟨p, hwf, hren⟩ := h [] _ _ hacc
-  obtain ⟨pre, c, hc, he⟩ := render_last false p hwf
-  rw [he] at hren
-  have := congrArg List.getLast? hren
-  simp at this
-  exact hc this
+  have hacc : dtConvertWith [("EST".toList, -5)] false (.str "20200101120000[-:EST]".toList)
+      = .ok (.dt ⟨2020, 1, 1, 17, 0, 0, 0, some utcTz⟩) := eq_of_okIs (by decide +kernel)
+  have hin := h _ _ _ hacc
+  rw [inNotation_iff] at hin
+  revert hin
+  decide +kernel
+
+/-- C09_read without the 4300-digit side condition -/
+def C09_read_full : Prop :=
+  ∀ (tzs : List (Str × Int)) (required : Bool) (p : Parts), p.wf false = true →
+    minInstant ≤ p.instant ∧ p.instant < endInstant →
+    ∃ v, dtConvertWith tzs required (.str p.render) = .ok v ∧ IsUtcOf v (1000 * p.instant)
+
+/-- 4300 zeros followed by 5, as the hours of an offset -/
+def longHoursWitness : Parts :=
+  ⟨some (2020, 1, 1), some (12, 0, 0), none, some ⟨none, List.replicate 4300 0 ++ [5], none, none⟩⟩
+
+set_option maxRecDepth 100000 in
+theorem longHoursWitness_rejected :
+    longHoursWitness.wf false = true
+    ∧ (minInstant ≤ longHoursWitness.instant ∧ longHoursWitness.instant < endInstant)
+    ∧ dtConvertWith [] false (.str longHoursWitness.render) = .error .value :=
+  ⟨by decide +kernel, by decide +kernel, eq_of_isErr (by decide +kernel)⟩
+
+theorem C09_read_full_false : ¬ C09_read_full := by
+  intro h
+  obtain ⟨v, hv, _⟩ := h [] false longHoursWitness longHoursWitness_rejected.1 longHoursWitness_rejected.2.1
+  rw [longHoursWitness_rejected.2.2] at hv
+  exact absurd hv (by simp)
+
+/-! ## the Interactive Brokers form -/
+
+/-- **C09_ib_read.** A date-time text of the notation without offset (with a time of day), followed by `[h:NAME]`
+    where `h` is a non-empty text over `[0-9+-]` that is not an integer (Interactive Brokers send `-`) and `NAME` is
+    in the zone table with an entry `z` in −12 … 14, converts to the UTC value of the instant read at `z` hours
+    east of Greenwich. -/
+theorem C09_ib_read (tzs : List (Str × Int)) (required : Bool) (p : Parts) (hh n : Str) (z : Int)
+    (hwf : p.wf false = true) (hoff : p.off = none) (htod : p.tod.isSome = true)
+    (hne : hh ≠ []) (hall : ∀ c ∈ hh, isHoursChar c = true) (hint : pyIntSigned hh = none)
+    (hn : '\n' ∉ n) (hz : tzs.lookup n = some z) (hzr : -12 ≤ z ∧ z ≤ 14)
+    (hrange : minInstant ≤ p.instant - z * 3600000 ∧ p.instant - z * 3600000 < endInstant) :
+    ∃ v, dtConvertWith tzs required (.str (p.render ++ ibText hh n)) = .ok v
+      ∧ IsUtcOf v (1000 * (p.instant - z * 3600000)) := by
+  obtain ⟨date, tod, ms, off⟩ := p
+  simp only at hoff htod
+  subst hoff
+  simp only [Parts.wf, Bool.and_eq_true] at hwf
+  obtain ⟨⟨⟨hd, ht⟩, hms⟩, _⟩ := hwf
+  cases date with
+  | none => simp at hd
+  | some ymd =>
+    obtain ⟨y, m, d⟩ := ymd
+    simp only [Bool.not_false, Bool.true_and] at hd
+    cases tod with
+    | none => simp at htod
+    | some hms' =>
+      obtain ⟨h, mi, s⟩ := hms'
+      simp only at ht
+      have hmsv : ∀ x, ms = some x → x < 1000 := by
+        intro x hx; rw [hx] at hms; simpa using hms
+      have hI : Parts.instant ⟨some (y, m, d), some (h, mi, s), ms, none⟩ - z * 3600000
+          = instantOf y m d h mi s (ms.getD 0) (60 * z) := by
+        show instantOf y m d h mi s (ms.getD 0) 0 - z * 3600000 = _
+        unfold instantOf; omega
+      rw [hI] at hrange ⊢
+      obtain ⟨f, hf, v1, v2, v3⟩ := dtConvertStr_ib tzs y m d h mi s ms hh n z hd ht hmsv hne hall hn hint hz hzr hrange
+      refine ⟨_, ?_, isUtcOf_fields f _ v1 v2 v3⟩
+      have hr : Parts.render ⟨some (y, m, d), some (h, mi, s), ms, none⟩ ++ ibText hh n
+          = dateText y m d ++ (todText h mi s ++ (msText ms ++ ibText hh n)) := by
+        rw [render_full]; simp [offText]
+      simpa [dtConvertWith, hr] using hf
+
+/-- the hypotheses are satisfiable: `20200101120000.000[-:EST]` with the table entry EST ↦ −5 -/
+example : ("-".toList ≠ []) ∧ (∀ c ∈ "-".toList, isHoursChar c = true) ∧ pyIntSigned "-".toList = none
+    ∧ ([("EST".toList, (-5 : Int))] : List (Str × Int)).lookup "EST".toList = some (-5)
+    ∧ (⟨some (2020, 1, 1), some (12, 0, 0), some 0, none⟩ : Parts).render ++ ibText "-".toList "EST".toList
+        = "20200101120000.000[-:EST]".toList := by decide +kernel
 
 end Ofx.DateTime
